@@ -19,6 +19,9 @@ void harness(void) {
 #ifdef VF_RB_CASE_INDEX	/* case split over the writer's table index (one job per value 0..4) */
 	VF_ASSUME(r->iov_index == VF_RB_CASE_INDEX);
 #endif
+#ifdef VF_RB_CASE_MAX	/* case: last valid index of the table (with VF_RB_CASE_INDEX: a concrete block layout) */
+	VF_ASSUME(r->iov_index_max == VF_RB_CASE_MAX);
+#endif
 #ifdef VF_RB_CASE_FRAG	/* case split over RBUF_F_FRAG (0 / 1) */
 	VF_ASSUME(((r->flags & RBUF_F_FRAG) != 0) == (VF_RB_CASE_FRAG != 0));
 #endif
